@@ -2,6 +2,37 @@
 from translate import lstr, lint
 
 
+def callback_facts():
+    """from the AST of Module.announceUpdate: the exception classes caught around the call of a parameter callback,
+    and where the callback loop stands relative to the last store into the entry and the call of updateCallback"""
+    import ast
+    import inspect
+    import textwrap
+    from frappy.modulebase import Module
+    tree = ast.parse(textwrap.dedent(inspect.getsource(Module.announceUpdate)))
+    loop = None
+    for node in ast.walk(tree):
+        if isinstance(node, ast.For) and 'paramCallbacks' in ast.unparse(node.iter):
+            loop = node
+    caught = []
+    if loop is not None:
+        for node in ast.walk(loop):
+            if isinstance(node, ast.Try):
+                for h in node.handlers:
+                    if h.type is None:
+                        caught.append('BaseException')
+                    elif isinstance(h.type, ast.Tuple):
+                        caught += [ast.unparse(e) for e in h.type.elts]
+                    else:
+                        caught.append(ast.unparse(h.type))
+    stores = [n.lineno for n in ast.walk(tree) if isinstance(n, ast.Assign)
+              and any(ast.unparse(t) in ('pobj.value', 'pobj.readerror', 'pobj.timestamp') for t in n.targets)]
+    notify = [n.lineno for n in ast.walk(tree) if isinstance(n, ast.Call) and ast.unparse(n.func) == 'self.updateCallback']
+    after_store = loop is not None and bool(stores) and max(stores) < loop.lineno
+    before_notify = loop is not None and bool(notify) and loop.end_lineno < min(notify)
+    return caught, after_store, before_notify
+
+
 def generate():
     from frappy.params import Parameter
     from frappy.lib import generalConfig
@@ -11,7 +42,12 @@ def generate():
     members = {m.name: int(m.value) for m in enum._enum.members}
     default = Parameter.propertyDict['update_unchanged'].default
     gen = generalConfig.defaults.get('omit_unchanged_within', 0)
+    caught, after_store, before_notify = callback_facts()
+    from translate import llist, lbool
     return [
+        'def callbackCaught : List String := ' + llist(lstr(c) for c in caught),
+        f'def callbacksAfterStores : Bool := {lbool(after_store)}',
+        f'def callbacksBeforeNotify : Bool := {lbool(before_notify)}',
         f'def updateUnchangedAlways : Int := {lint(members["always"])}',
         f'def updateUnchangedNever : Int := {lint(members["never"])}',
         f'def updateUnchangedDefault : Int := {lint(members["default"])}',
